@@ -25,8 +25,8 @@ import (
 	"context"
 	"encoding"
 	"encoding/binary"
-	"encoding/json"
 	"encoding/hex"
+	"encoding/json"
 	"fmt"
 	"io/ioutil"
 	"math/rand"
@@ -144,7 +144,7 @@ func (s *memState) Iterate(prefix string, fn storage.StateIterFunc) error {
 }
 
 func (s *memState) DB() driver.BatchDB { return nil }
-func (s *memState) Close() error      { return nil }
+func (s *memState) Close() error       { return nil }
 
 // ---------------------------------------------------------------- gate store
 
@@ -751,20 +751,6 @@ func (w *world) startInit(wn *wnode) {
 	}()
 }
 
-func writeOne(port *swb.Port, to boson.Address, stream string, msg proto.Message) error {
-	ctx, cancel := context.WithTimeout(context.Background(), 5*time.Second)
-	defer cancel()
-	s, err := port.NewStream(ctx, to, nil, ciProtocol, ciVersion, stream)
-	if err != nil {
-		return err
-	}
-	wr := protobuf.NewWriter(s)
-	if err := wr.WriteMsgWithContext(ctx, msg); err != nil {
-		return err
-	}
-	return s.Close()
-}
-
 func (w *world) run(sc kit.Scenario) (evs []kit.Ev, err error) {
 	emit := func(ev kit.Ev) error {
 		w.collect()
@@ -968,10 +954,6 @@ func (w *world) run(sc kit.Scenario) (evs []kit.Ev, err error) {
 				return nil, fmt.Errorf("timeout: unknown overlay %q", kit.Str(op, "o"))
 			}
 			ev["armed"] = wn.n.CI.VerifAgeTrigger(w.root, o, 40)
-			sig := func() string {
-				d := wn.n.CI.VerifDump(w.root)
-				return fmt.Sprint(d.Queue != nil, d.Queue, d.Triggers, atomic.LoadInt32(&wn.init))
-			}
 			qsig := func() string {
 				d := wn.n.CI.VerifDump(w.root)
 				if d.Queue == nil {
@@ -979,7 +961,6 @@ func (w *world) run(sc kit.Scenario) (evs []kit.Ev, err error) {
 				}
 				return fmt.Sprint(d.Queue.UnPull, d.Queue.Pulling, d.Queue.Pulled, d.Triggers, atomic.LoadInt32(&wn.init))
 			}
-			_ = sig
 			s0 := qsig()
 			fired := false
 			deadline := time.Now().Add(6500 * time.Millisecond)
